@@ -384,11 +384,13 @@ func blackBox(c *hlib.Ctx, prop string) {
 		bbCloseDrains(c)
 		bbOverflowEpisodes(c, true)
 		bbSinkFaults(c)
+		bbConcurrentClosers(c)
 		fatalPath(c)
 	case "C12":
 		bbDeliversWhenIdle(c)
 		bbCloseDrains(c)
 		bbOverflowEpisodes(c, false)
+		bbCloseWhileStalledAndWriting(c)
 		bbPollerStaysPrompt(c)
 	}
 }
